@@ -112,7 +112,14 @@ func classify(v ssa.Value, depth int, seen map[ssa.Value]bool) class {
 	case *ssa.Slice:
 		return classify(x.X, depth+1, seen)
 	case *ssa.UnOp:
-		if x.Op == token.MUL { // load through a pointer: what is loaded lives where the pointer's owner lives
+		if x.Op == token.MUL { // load through a pointer: what is loaded lives where the pointer's owner lives ...
+			// ... unless what is loaded is itself a pointer to a struct of the module that is not per-call data: such a
+			// struct (the evaluator, a flag, a segment, a clause) is shared wherever the pointer to it happens to be kept
+			if _, isPtr := x.Type().(*types.Pointer); isPtr {
+				if tc := classOfType(x.Type()); tc.kind == "shared" {
+					return tc
+				}
+			}
 			c := classify(x.X, depth+1, seen)
 			if c.kind == "local" {
 				// loading a slice/pointer/map out of a LOCAL variable: follow the stores into that variable
